@@ -52,6 +52,9 @@ type Exec struct {
 	used     map[string]bool // trusted contracts used
 	inlined  map[string]bool
 	havocked map[string]bool // uncontracted callees treated as havoc
+	called   map[*ssa.Function]bool // callees whose (non-trusted) contract was applied
+	curCall  ssa.CallInstruction   // the call a contract is being applied to (for modifies pointee(p))
+	curSig   *types.Signature
 	pureMode int             // >0 while evaluating a pure closure application: no obligations
 	inputs   map[string]string
 	inputTypes map[string]types.Type
@@ -530,12 +533,38 @@ func sameStore(a, b *State) bool {
 	if fa != nil || fb != nil {
 		return false
 	}
+	if a.callsLost != b.callsLost || !sameLog(a.calls, b.calls) || !sameLog(a.recent, b.recent) {
+		return false
+	}
 	if len(a.snaps) != len(b.snaps) {
 		return false
 	}
 	for k, v := range a.snaps {
 		if b.snaps[k] != v {
 			return false
+		}
+	}
+	return true
+}
+
+func sameLog(a, b map[string][]callRec) bool {
+	if len(a) != len(b) {
+		return false
+	}
+	for k, v := range a {
+		w := b[k]
+		if len(w) != len(v) {
+			return false
+		}
+		for i := range v {
+			if !sameVal(v[i].res, w[i].res) || len(v[i].args) != len(w[i].args) {
+				return false
+			}
+			for j := range v[i].args {
+				if !sameVal(v[i].args[j], w[i].args[j]) {
+					return false
+				}
+			}
 		}
 	}
 	return true
@@ -975,6 +1004,8 @@ func (x *Exec) checkVariant(st *State, fr *Frame, l *Loop, lc *LoopContract) {
 
 // havocLoop forgets everything the loop body may modify.
 func (x *Exec) havocLoop(st *State, fr *Frame, l *Loop, lc *LoopContract) {
+	st.callsLost = true // from here on the log misses the calls of the iterations that were cut
+	st.recent = nil
 	cells := map[*ssa.Alloc]bool{}
 	comps := map[string]bool{}
 	// objRoots[comp]: the objects (allocated by this function before the loop) that stores into comp are confined
